@@ -228,7 +228,7 @@ func (s *scen) keyBytes(k keyPair, form string) []byte {
 	return b
 }
 
-// sign: class in valid | highs | wrongkey | wrongmsg | empty | garbage | badder
+// sign: class in valid | highs | wrongkey | wrongmsg | empty | garbage | badder | forged
 func (s *scen) sign(class string, k keyPair, tx *caseTx, idx int, code []byte, amount uint64, ht byte, fork bool) []byte {
 	if class == "empty" {
 		return []byte{}
@@ -237,6 +237,29 @@ func (s *scen) sign(class string, k keyPair, tx *caseTx, idx int, code []byte, a
 		g := randBytes(s.rng, 10+s.rng.Intn(30))
 		g[0] = 0x31
 		return append(g, ht)
+	}
+	if class == "forged" {
+		// well-formed DER made by nobody: R random, S of every byte length with high leading bytes
+		// (numerically far below half the group order when short, lexicographically "large")
+		// S = the first n bytes of half the group order, last byte +-1 (n = 1..32): short values are
+		// numerically tiny, yet compare "greater" byte-wise; n = 32 is the real boundary
+		half, _ := new(big.Int).SetString("7fffffffffffffffffffffffffffffff5d576e7357a4501ddfe92f46681b20a0", 16)
+		n := 1 + s.rng.Intn(32)
+		sb := append([]byte{}, half.Bytes()[:n]...)
+		switch s.rng.Intn(4) {
+		case 0:
+			sb[n-1]++
+		case 1:
+			sb[n-1]--
+		case 2:
+			copy(sb[n/2:], randBytes(s.rng, n-n/2))
+		}
+		if sb[0] >= 0x80 || new(big.Int).SetBytes(sb).Sign() == 0 {
+			sb[0] = 0x01
+		}
+		rb := randBytes(s.rng, 32)
+		rb[0] = 0x11
+		return append(derEncode(new(big.Int).SetBytes(rb), new(big.Int).SetBytes(sb)), ht)
 	}
 	signer := k
 	if class == "wrongkey" {
@@ -329,7 +352,7 @@ func sigsCmd(args []string) error {
 		}
 		return tx, rng.Intn(nin), uint64(rng.Intn(100000))
 	}
-	classes := []string{"valid", "valid", "valid", "highs", "wrongkey", "wrongmsg", "empty", "garbage", "badder"}
+	classes := []string{"valid", "valid", "valid", "highs", "wrongkey", "wrongmsg", "empty", "garbage", "badder", "forged"}
 	forms := []string{"comp", "comp", "uncomp", "hybrid", "badlen", "badprefix"}
 	emit := func(id, src string, unlock, lock []byte, fl scriptflag.Flag, tx *caseTx, idx int, amount uint64) {
 		// projected transaction for SigHash.tla
@@ -409,6 +432,10 @@ func sigsCmd(args []string) error {
 			code = []byte{op}
 		default:
 			lock = append(pushBytes(kb), op)
+			if !verify && rng.Intn(3) == 0 {
+				// the result is consumed: "false" and "error" are different verdicts here
+				lock = append(lock, 0x91)
+			}
 			code = lock
 		}
 		if verify {
@@ -554,6 +581,14 @@ func commitScenarios(s *scen, rng *rand.Rand, n int, emit func(id, src string, u
 		lock, _ = bscript.NewP2PKHFromPubKeyBytes(pub)
 		if rng.Intn(4) == 0 {
 			lock = inscriptionScript(k.priv, rng.Intn(20))
+			// optionally followed by an OP_RETURN section of 0, 1, 2, ... bytes (never executed, but part
+			// of the script code every signature commits to)
+			if tails := [][]byte{nil, {0x6a}, {0x6a, 0x00}, {0x6a, 0x51}, {0x6a, 0x01, 0x07}, {0x6a, 0x02, 0xaa, 0xbb}}; rng.Intn(2) == 0 {
+				l2 := append(bscript.Script{}, *lock...)
+				l2 = append(l2, tails[rng.Intn(len(tails))]...)
+				lock = &l2
+				fl |= scriptflag.UTXOAfterGenesis // before Genesis an executed OP_RETURN fails the script
+			}
 		}
 		// sign through the library
 		real := tx.build(idx, bscript.NewFromBytes([]byte{}))
